@@ -290,9 +290,49 @@ def _dot_order(ctx: Ctx):
         ctx.count("dot-order", "histories")
 
 
+def _shared_formula_kinds(ctx: Ctx):
+    """one Formula object used for several builds over data in which a column holds text in one frame and numbers in another: every build
+    equals the build from the formula's text alone, in any order, and the formula object is left as it was"""
+    import numpy as np
+    import pandas as pd
+    from formulaic import Formula, model_matrix
+    rng = ctx.fork("shared-formula")
+    frames = {"text": pd.DataFrame({"y": [1.0, 2.0, 3.0, 4.0], "code": pd.Series(["k1", "k2", "k3", "k1"], dtype=object), "x": [0.5, 1.5, 2.5, 3.5]}),
+              "int": pd.DataFrame({"y": [1.0, 2.0, 3.0, 4.0], "code": [10, 20, 30, 10], "x": [0.5, 1.5, 2.5, 3.5]}),
+              "float": pd.DataFrame({"y": [1.0, 2.0, 3.0, 4.0], "code": [0.25, 0.5, 0.75, 0.25], "x": [0.5, 1.5, 2.5, 3.5]}),
+              "category": pd.DataFrame({"y": [1.0, 2.0, 3.0, 4.0], "code": pd.Categorical(["b", "a", "b", "c"]), "x": [0.5, 1.5, 2.5, 3.5]})}
+    for i in range(ctx.n(24, 200)):
+        text = rng.choice(["y ~ code + x", "code + x", "code:x", "y ~ x + code:x", "0 + code"])
+        F = Formula(text)
+        before = repr([(repr(t), [(fc.expr, fc.eval_method, fc.kind) for fc in t.factors]) for sf in (F._flatten() if hasattr(F, "_flatten") else [F]) for t in sf])
+        hist = []
+        for step in range(rng.randint(2, 4)):
+            which = rng.choice(list(frames))
+            hist.append(which)
+            ctx.oracle_runs += 1
+            rp = {"kind": "shared-formula", "formula": text, "frames": hist[:]}
+            try:
+                got = F.get_model_matrix(frames[which])
+                want = model_matrix(text, frames[which])
+            except Exception as e:
+                ctx.fail(f"Formula({text!r}) used in turn on frames with a {hist} column 'code': {type(e).__name__}: {str(e)[:150]}", rp)
+                break
+            gs = got._flatten() if hasattr(got, "_flatten") else [got]
+            ws_ = want._flatten() if hasattr(want, "_flatten") else [want]
+            if any(list(g.columns) != list(w.columns) or not np.array_equal(np.asarray(g, dtype=float), np.asarray(w, dtype=float)) for g, w in zip(gs, ws_)):
+                ctx.fail(f"Formula({text!r}) used in turn on frames with a {hist} column 'code': the last build has columns {[list(g.columns) for g in gs]}, "
+                         f"the same text built alone gives {[list(w.columns) for w in ws_]}", rp)
+                break
+        after = repr([(repr(t), [(fc.expr, fc.eval_method, fc.kind) for fc in t.factors]) for sf in (F._flatten() if hasattr(F, "_flatten") else [F]) for t in sf])
+        if after != before:
+            ctx.fail(f"building from Formula({text!r}) on frames {hist} changed the formula object: {before} -> {after}", {"kind": "shared-formula", "formula": text, "frames": hist})
+        ctx.count("shared-formula", "histories")
+
+
 def run(ctx: Ctx):
     _rebinding(ctx)
     _dot_order(ctx)
+    _shared_formula_kinds(ctx)
     rng = ctx.fork("c18")
     lits, descr = [], []
     for i in range(ctx.n(150, 2500)):
